@@ -243,4 +243,7 @@ fire("C01", "tree-blocks-swapped", "R1.7", E(TREE, "sequence_tree_skip_grams", "
 silent("C04", "rename-key-locals", [E(TOK, "numba_build_skip_grams", "array_mul", "stride_of_rows", count=2), E(TOK, "numba_build_skip_grams", "key = col + stride_of_rows * row", "cell_key = col + stride_of_rows * row"),
                                      E(TOK, "numba_build_skip_grams", "(row, col, val, key)", "(row, col, val, cell_key)")], "locals of the key computation renamed")
 
+fire("C04", "merge-key-float32", "R4.6", E(COO, "merge_sum_duplicates", "result_key = np.zeros(array_len)", "result_key = np.zeros(array_len, dtype=np.float32)"), "merge buffer for the cell keys narrowed to float32")
+silent("C04", "merge-key-float64-explicit", E(COO, "merge_sum_duplicates", "result_key = np.zeros(array_len)", "result_key = np.zeros(array_len, dtype=np.float64)"), "explicit float64")
+
 VARIANTS = V
